@@ -22,6 +22,7 @@ func c19List(name string, max int) []string {
 	var l []string
 	for k := 0; k < n; k++ {
 		s := zv.StringN(name+string(rune('0'+k)), 1)
+		zv.Assume(s[0] > 0x20 && s[0] < 0x7f) // names are printable ASCII (media types, methods, paths, scheme names)
 		for _, o := range l {
 			zv.Assume(!zv.StrEq(o, s)) // key sets: duplicate-free
 		}
